@@ -10,3 +10,5 @@ CONSTANTS
   InitKinds = "empty"
   WithDrain = TRUE
   PartFix = TRUE
+  SubAt = "first"
+  SyncSteps = FALSE
